@@ -16,6 +16,7 @@ mod c14;
 mod c15;
 mod c16;
 mod c17;
+mod c19;
 mod lexers;
 mod trusted;
 mod util;
@@ -69,6 +70,7 @@ fn main() {
                 "C11" => c11::search(obl),
                 "C15" => c15::search(obl),
                 "C14" => c14::search(obl),
+                "C19" => c19::search(obl),
                 _ => { eprintln!("no witness search for {prop}"); std::process::exit(2) }
             };
             if found.is_empty() { println!("NO-WITNESS"); }
@@ -92,6 +94,7 @@ fn main() {
                 ("C11", Some(i)) => c11::check_one(&i),
                 ("C14", Some(i)) => c14::check_one(&i),
                 ("C15", Some(i)) => c15::check_one(&i),
+                ("C19", Some(i)) => c19::check_one(&i),
                 _ => { println!("REPLAY: nothing to re-run (no concrete input in file)"); std::process::exit(0) }
             };
             match r {
